@@ -506,3 +506,4 @@ def fixed(chk, repo):
 
 # added rules (appended to the explanation the evidence file carries)
 EXPLANATION += (" " + 'Added during the build (DESIGN.md 4.31, second table): HashMap.init on a program with two maps; TheDict.__iter__ against a model of get_next_key; hash reads by abstract execution (shared with C02); sign-extension tables of C01 shared.')
+EXPLANATION += (" Added after wave 9: (R09.8) a HashMap's variable list is per map; the structure classes in the TheDict.__init__ run are callable stand-ins that know their size.")
